@@ -16,3 +16,5 @@ import Norad.Props.C08
 #print axioms C08.refused_save_leaves_fs_groups_spec
 #print axioms C08.source_validators_precede_wipe
 #print axioms C08.source_save_order_matches_plan
+#print axioms C08.source_plan_refusal_has_no_effect
+#print axioms C08.source_refuses_whenever_model_does
